@@ -37,6 +37,12 @@ CONSTANTS Pre,          \* samples 1..Pre exist before the match and are not owe
           MaxFaults,
           K,            \* rounds allowed for convergence
           MaxRounds,    \* bound on rounds per behaviour
+          Win,          \* how many consecutive sequence numbers the set of ONE ACKNACK can span (256 in the code, RTPS
+                        \* 8.3.5.5); a reader that misses more asks for the first Win of them and for the rest later
+          Bursts,       \* sizes of an outage: that many samples are written while the network is down (every pushed
+                        \* datagram lost; an outage is not taken from the fault budget)
+          OutageAt,     \* the outage happens when exactly OutageAt samples exist
+          KeySNs,       \* samples that are key-only (dispose by serialized key); if also in FragSNs the key is fragmented
           MaxRematch,   \* how often the READER side may lose and re-create its proxy of the writer (lease expiry after lost
                         \* SPDP announcements, then rediscovery) while the writer keeps its proxy of the reader
           GenK
@@ -93,10 +99,28 @@ Write ==
             THEN wrQ' = wrQ \o AllFrags(sn) \o <<[k |-> "HB", sn |-> sn, f |-> 0, last |-> sn, count |-> hbc]>>
             ELSE wrQ' = Append(wrQ, [k |-> "DATA", sn |-> sn, f |-> 0, hb |-> TRUE, last |-> sn, count |-> hbc])
        /\ hbc' = hbc + 1
-       /\ acts' = Append(acts, [a |-> "Write", big |-> (sn \in FragSNs)])
+       /\ acts' = Append(acts, [a |-> "Write", big |-> (sn \in FragSNs), key |-> (sn \in KeySNs)])
   /\ mode' = "drainW"
   /\ clean' = 0          \* new data: convergence is owed again
   /\ UNCHANGED <<wAck, wRep, wFr, wGap, ab, chg, asm, rhb, sac, rwQ, seen, faultsLeft, roundFaults, roundTraffic,
+                 lastTraffic, rounds, devS3, everGot, rematchLeft, faults>>
+
+\* The network is down while the application writes n samples: every datagram the writer pushes is lost (they are
+\* counted as seen, so that content-addressed faults keep their meaning).  Nothing reaches the reader, not even a
+\* HEARTBEAT; the samples stay in the proxy's unsent set.  n is reported relative to Win (q windows + r), so that the
+\* driver can replay the scenario at the window size of the code.
+OutKeys(new) == {<<"wr", "DATA", s, 0>> : s \in new \ FragSNs} \cup {<<"wr", "HB", s, 0>> : s \in new \cap FragSNs}
+                \cup {<<"wr", "FRAG", s, f>> : s \in new \cap FragSNs, f \in 1..NF}
+Outage(n) ==
+  /\ mode = "env" /\ n \in Bursts /\ wlast = OutageAt
+  /\ LET new == (wlast + 1)..(wlast + n) IN
+       /\ wlast' = wlast + n
+       /\ wUns' = wUns \cup new
+       /\ hbc' = hbc + n
+       /\ seen' = [x \in DOMAIN seen \cup OutKeys(new) |-> IF x \in OutKeys(new) THEN 1 ELSE seen[x]]
+       /\ acts' = Append(acts, [a |-> "Outage", n |-> n, q |-> n \div Win, r |-> n % Win])
+  /\ clean' = 0
+  /\ UNCHANGED <<wAck, wRep, wFr, wGap, ab, chg, asm, rhb, sac, wrQ, rwQ, mode, faultsLeft, roundFaults, roundTraffic,
                  lastTraffic, rounds, devS3, everGot, rematchLeft, faults>>
 
 \* the reader side loses its proxy of the writer and re-creates it (Reader::remove_writer_proxy, then
@@ -129,9 +153,11 @@ RRecv(sn, a, c) == IF sn < a \/ sn \in c THEN <<a, c>>
 \* reply of handle_heartbeat_msg(first = 1, last, final = FALSE): <<messages, sac'>>
 HbReply(last, a, c, asmN) ==
   LET miss == {s \in a..last : s \notin c}
-      part == {s \in miss : s \in DOMAIN asmN}
+      \* missing_seqnums / from_base_and_set: one ACKNACK names at most the Win numbers from the first missing one on
+      win  == IF miss = {} THEN {} ELSE {s \in miss : s < LMin(miss) + Win}
+      part == {s \in win : s \in DOMAIN asmN}
       nf   == IF part = {} THEN <<>> ELSE <<NfMsg(LMin(part))>>   \* one datagram carrying all NACKFRAGs
-      ack  == IF miss = {} THEN AckMsg(a, {}) ELSE AckMsg(LMin(miss), miss \ part)
+      ack  == IF miss = {} THEN AckMsg(a, {}) ELSE AckMsg(LMin(miss), win \ part)
   IN nf \o <<ack>>
 
 ReaderGets(m) ==
@@ -242,6 +268,7 @@ Fire ==
 
 Next ==
   \/ Write \/ RoundStart \/ Drained \/ Fire \/ Rematch
+  \/ \E n \in Bursts : Outage(n)
   \/ \E fate \in {"ok", "drop", "dup"} : Deliver(fate)
 
 Spec == Init /\ [][Next]_vars
@@ -250,18 +277,21 @@ Spec == Init /\ [][Next]_vars
 \* (after a re-match with a writer that has gone quiet the reader's new proxy knows nothing, but the reader still holds
 \* what it received: the property speaks of what the reader holds)
 Converged == wAck = wlast + 1 /\ (ab = wlast + 1 \/ (1..wlast) \subseteq everGot)
-Inv_Converge == (mode = "env" /\ clean >= K) => (Converged \/ devS3)
-Inv_Quiet    == (mode = "env" /\ clean >= K + 1) => (lastTraffic = 0 \/ devS3)
+\* "a bounded number of rounds": K, plus one round for every full window of numbers the reader may have to ask for
+\* (a reader that knows nothing - after a re-match - can request only Win numbers per ACKNACK)
+KB == K + (wlast \div Win)
+Inv_Converge == (mode = "env" /\ clean >= KB) => (Converged \/ devS3)
+Inv_Quiet    == (mode = "env" /\ clean >= KB + 1) => (lastTraffic = 0 \/ devS3)
 \* the reader never believes a sample unavailable that the writer owes it
 Inv_GapOnlyNotOwed == \A x \in chg : x > Pre \/ x \in 1..Pre
 \* the deviation is really reachable only through a lost fragment (vacuity guard for devS3)
 Inv_DevNeedsFragments == devS3 => FragSNs # {}
 \* (sanity only, expected to be violated: without the named deviation the property does not hold)
-Inv_ConvergeStrict == (mode = "env" /\ clean >= K) => Converged
+Inv_ConvergeStrict == (mode = "env" /\ clean >= KB) => Converged
 
 View == <<wlast, wUns, wAck, wRep, wFr, wGap, hbc, ab, chg, asm, rhb, wrQ, rwQ, seen, mode, faultsLeft, roundFaults,
           roundTraffic, clean, lastTraffic, rounds, devS3, everGot, rematchLeft>>
 
 GenEdge == (GenK > 0 /\ mode' = "env" /\ mode # "env" /\ RandomElement(1..GenK) = 1) =>
-             PrintT("REPLAY " \o ToJson([hist |-> 0, frag |-> 64, pre |-> Pre, acts |-> acts', faults |-> faults', rounds_after |-> K + 2]))
+             PrintT("REPLAY " \o ToJson([hist |-> 0, frag |-> 64, pre |-> Pre, win |-> Win, acts |-> acts', faults |-> faults', rounds_after |-> K + 2]))
 ==========================================================================
